@@ -557,10 +557,16 @@ func (e *engine) collect() []simkit.Action {
 	var acts []simkit.Action
 	parkedByKind := map[string]int{}
 	handlerConns := map[int]bool{}
+	// handlers slower than any release budget: nothing parked in a SEND handler is
+	// released while Stop is waiting
+	hold := c.StopHold && e.stopping && !e.stopped && !e.final
 	for _, p := range q.w.Pending() {
 		p := p
 		info := p.Info.(*parkInfo)
 		parkedByKind[info.kind]++
+		if hold && (info.kind == "batch" || info.kind == "ubatch" || info.kind == "umid") {
+			continue
+		}
 		switch info.kind {
 		case "gate":
 			acts = append(acts, simkit.Action{Prio: 0, Key: "go " + p.Key, Weight: 10, Do: func() { q.w.Release(p, decOK) }})
@@ -568,7 +574,11 @@ func (e *engine) collect() []simkit.Action {
 			for _, k := range info.conns {
 				handlerConns[k] = true
 			}
-			acts = append(acts, simkit.Action{Prio: 0, Key: "release " + p.Key, Weight: 9, Do: func() {
+			rw := 9
+			if c.Saturable && !e.final {
+				rw = 3 // slow handlers: let the worker pool fill up
+			}
+			acts = append(acts, simkit.Action{Prio: 0, Key: "release " + p.Key, Weight: rw, Do: func() {
 				info.plan = e.drawPlan(info, faults)
 				q.w.Release(p, decOK)
 			}})
@@ -665,7 +675,18 @@ func (e *engine) collect() []simkit.Action {
 			}
 		}
 		if c.FStop {
-			acts = append(acts, simkit.Action{Prio: 7, Key: "stop server", Weight: 1, Do: func() { e.doStop() }})
+			w := 1
+			if e.c41 {
+				w = 2
+				busyHandlers := parkedByKind["batch"] + parkedByKind["ubatch"] + parkedByKind["umid"]
+				if busyHandlers > 0 {
+					w = 6
+				}
+				if e.shardWaitingForWorker() {
+					w = 60 // every worker stuck in a handler and another shard's admitted work waiting for one
+				}
+			}
+			acts = append(acts, simkit.Action{Prio: 7, Key: "stop server", Weight: w, Do: func() { e.doStop() }})
 		}
 	}
 	inflight := len(q.w.Pending()) > 0 || e.pendingWork()
@@ -688,6 +709,36 @@ func (e *engine) collect() []simkit.Action {
 	}
 	q.r.State(open, parkedByKind["gate"], parkedByKind["batch"]+parkedByKind["ubatch"], parkedByKind["frame"], parkedByKind["auth"], e.drainActive, e.drainStep > 0, e.stopping, e.backlogBucket())
 	return acts
+}
+
+// shardWaitingForWorker: every send worker is parked in a handler call and some
+// other connection (= another ordering shard) has admitted SENDs that no handler
+// call has picked up.
+func (e *engine) shardWaitingForWorker() bool {
+	q := e.q
+	if q.cfg.Workers < 2 {
+		return false
+	}
+	parked := 0
+	inHandler := map[int]bool{}
+	for _, p := range q.w.Pending() {
+		info := p.Info.(*parkInfo)
+		if info.kind == "batch" || info.kind == "ubatch" || info.kind == "umid" {
+			parked++
+			for _, k := range info.conns {
+				inHandler[k] = true
+			}
+		}
+	}
+	if parked < q.cfg.Workers {
+		return false
+	}
+	for _, cl := range q.clients {
+		if cl.admitted > cl.nHSends && !inHandler[cl.k] {
+			return true
+		}
+	}
+	return false
 }
 
 func (e *engine) backlogBucket() int {
@@ -867,7 +918,27 @@ func (e *engine) doDrain(timeout time.Duration) {
 func (e *engine) doStop() {
 	q := e.q
 	e.stopping = true
+	e.stopStep = q.r.Steps
 	q.r.Fault("server_stop")
+	if e.c41 {
+		queued, parked := 0, 0
+		for _, cl := range q.clients {
+			queued += cl.admitted - cl.nHSends
+		}
+		for _, p := range q.w.Pending() {
+			if k := p.Info.(*parkInfo).kind; k == "batch" || k == "ubatch" || k == "umid" {
+				parked++
+			}
+		}
+		q.r.Logf("  stop begins: %d admitted SENDs not yet at the handler, %d handler calls parked, release budget %v", queued, parked, q.cfg.ReleaseTO)
+		if queued > 0 || parked > 0 {
+			e.stopWithWork = true
+			q.r.Probe("stop.with_admitted_work_in_flight")
+		}
+		if e.shardWaitingForWorker() {
+			q.r.Probe("stop.with_shard_waiting_for_a_worker")
+		}
+	}
 	srv := e.srv
 	go func() {
 		err := srv.Stop()
@@ -1235,6 +1306,20 @@ func (e *engine) observe() {
 		case "stop":
 			e.stopped = true
 			q.r.Logf("  stop returned err=%v", a.err)
+			if e.c41 {
+				queued := 0
+				for _, cl := range q.clients {
+					queued += cl.admitted - cl.nHSends
+				}
+				if n := q.inflightSend.Load(); n > 0 || queued > 0 {
+					q.r.Probe("stop.release_budget_expired_with_work_in_flight")
+					if queued > 0 {
+						q.r.Probe("stop.returned_with_admitted_send_still_queued")
+					}
+				} else {
+					q.r.Probe("stop.graceful")
+				}
+			}
 		}
 	}
 	if e.drainDoneOK && e.totalHSends() > e.drainDoneAt {
@@ -1275,8 +1360,30 @@ func (e *engine) observeConn(cl *client, step int) {
 	}
 	overflowed := c.overflowed
 	c.overflowed = 0
+	admits := append([]bool(nil), c.admits[cl.nAdmits:]...)
 	c.mu.Unlock()
 	k := cl.k
+
+	// 0. admission outcomes (the gateway part of C41 reasons about admitted SENDs)
+	for _, ok := range admits {
+		cl.nAdmits++
+		if !e.c41 {
+			if ok {
+				cl.admitted++
+			}
+			continue
+		}
+		q.r.Logf("  c%d SEND admission #%d ok=%v", k, cl.nAdmits, ok)
+		if ok {
+			cl.admitted++
+			if e.stopStep > 0 && step > e.stopStep {
+				q.fail("send-admitted-after-stop", "", fmt.Sprintf("c%d: a SEND was admitted into the async queue at step %d although Server.Stop began at step %d", k, step, e.stopStep), map[string]any{"stop_step": e.stopStep, "step": step})
+				return
+			}
+		} else if e.stopStep > 0 && step > e.stopStep {
+			q.r.Probe("stop.submit_after_stop_rejected")
+		}
+	}
 
 	if len(panics) > 0 {
 		q.r.Fail("panic", fmt.Sprintf("c%d: panic in the connection actor: %s", k, panics[0]), nil)
@@ -1404,6 +1511,21 @@ func (e *engine) observeConn(cl *client, step int) {
 		} else if !cl.tainted {
 			q.fail("send-dispatch-order", "", fmt.Sprintf("c%d: the handler saw %d SENDs but the client sent only %d", k, i+1, len(sends)), nil)
 			return
+		}
+		if e.c41 {
+			if i >= cl.admitted {
+				q.fail("dispatch-without-admission", "", fmt.Sprintf("c%d: the handler saw SEND #%d but only %d SENDs of this connection were admitted", k, i, cl.admitted), nil)
+				return
+			}
+			if e.stopStep > 0 && i < len(sends) && sends[i].doneStep > e.stopStep {
+				q.fail("send-dispatched-after-stop", "", fmt.Sprintf("c%d: SEND seq=%d whose last byte reached the server at step %d was dispatched although Server.Stop began at step %d", k, sends[i].seq, sends[i].doneStep, e.stopStep), nil)
+				return
+			}
+			if e.stopped {
+				q.r.Probe("stop.dispatch_after_stop_returned")
+			} else if e.stopStep > 0 {
+				q.r.Probe("stop.dispatch_while_stop_waits")
+			}
 		}
 	}
 	cl.nHSends = len(hSends)
@@ -1577,6 +1699,19 @@ func (e *engine) finalPhase() {
 
 func (e *engine) reportUnanswered() {
 	q := e.q
+	if e.c41 {
+		for _, cl := range q.clients {
+			if cl.admitted > cl.nHSends {
+				how := "no stop"
+				if e.stopStep > 0 {
+					how = fmt.Sprintf("Server.Stop began at step %d with a release budget of %v and returned=%v", e.stopStep, q.cfg.ReleaseTO, e.stopped)
+				}
+				q.fail("admitted-send-never-dispatched", "", fmt.Sprintf("c%d: %d SENDs were admitted but only %d reached the handler; every handler call was released, nothing is parked, and nothing moved for at least 0.4 s of simulated time (%s)", cl.k, cl.admitted, cl.nHSends, how),
+					map[string]any{"admitted": cl.admitted, "dispatched": cl.nHSends, "stop_step": e.stopStep, "release_budget_ms": q.cfg.ReleaseTO.Milliseconds()})
+				return
+			}
+		}
+	}
 	for _, cl := range q.clients {
 		if cl.closed {
 			continue
@@ -1613,6 +1748,16 @@ func (e *engine) finalChecks() bool {
 		q.r.Logf("final c%d closed=%v why=%q sent=%d delivered=%d dispatched=%d acks=%d pongs=%d", cl.k, cl.closed, cl.closeWhy, len(sends), delivered, cl.nHSends, cl.nAcks, cl.nPongs)
 		q.r.ProbeN("sendacks_written", cl.nAcks)
 		q.r.ProbeN("sends_dispatched", cl.nHSends)
+		if e.c41 {
+			q.r.ProbeN("sends_admitted", cl.admitted)
+			if cl.admitted != cl.nHSends {
+				q.fail("admitted-send-never-dispatched", "final", fmt.Sprintf("c%d: %d SENDs admitted, %d reached the handler", cl.k, cl.admitted, cl.nHSends), nil)
+				return false
+			}
+			if e.stopStep > 0 && cl.admitted > 0 {
+				q.r.Probe("stop.admitted_before_stop_all_dispatched")
+			}
+		}
 		if cl.closed {
 			continue
 		}
